@@ -245,6 +245,9 @@ def _family(ctx, index, G, uni, table):
     wl = _log_uniform(rng, 0.05, 50.0)
     if rng.random() < 0.15:                              # inside the energy tables
         wl = _log_uniform(rng, 0.4, 6.0)
+    wl_type = rng.choice(['float', 'float', 'float', 'float', 'np.float64', 'int'])
+    if wl_type == 'int':
+        wl = float(rng.randint(1, 30))
     c = G.draw_scale(rng)
     tries = 0
     while not all(G.renderable(v * c) for _, v in items) and tries < 20:
@@ -258,6 +261,7 @@ def _family(ctx, index, G, uni, table):
         'density': rho,
         'k': _log_uniform(rng, 1e-2, 1e2),
         'wavelength': wl,
+        'wavelength_type': wl_type,
         'base': _variant(rng, G, uni, table, items, 'base'),
         'variants': [],
     }
@@ -266,11 +270,16 @@ def _family(ctx, index, G, uni, table):
     case['variants'].append(_variant(rng, G, uni, table, G.scaled(items, c), 'scale', scale=G.dec_text(c)))
     n = rng.randint(1, 7)
     wls = [_log_uniform(rng, 0.05, 50.0) for _ in range(n)]
+    ints = rng.random() < 0.08
+    if ints:
+        wls = [float(rng.randint(1, 30)) for _ in range(n)]      # integer-valued wavelengths, passed as ints
+        if wl_type != 'int':
+            case['wavelength'] = wl = wls[0]
     wls[rng.randrange(n)] = wl
     if n > 1 and rng.random() < 0.2:
         wls[rng.randrange(n)] = wls[0]                   # repeated wavelength, unsorted order is the rule anyway
     case['vector'] = {'wavelengths': wls, 'container': rng.choice(['list', 'array']),
-                      'via': 'energy' if rng.random() < 0.25 else 'wavelength'}
+                      'via': 'energy' if (rng.random() < 0.25 and not ints) else 'wavelength', 'ints': ints}
     case['energy_scalar_type'] = rng.choice(['float', 'float', 'np.float64'])
     return case
 
@@ -447,11 +456,22 @@ def _compare(ctx, what, got, want, name, diag=None):
     return False
 
 
-def _container(kind, values):
+def _container(kind, values, ints=False):
     import numpy as np
+    if ints:
+        values = [int(v) for v in values]
     if kind == 'array':
-        return np.array(values, dtype=float)
+        return np.array(values, dtype=int if ints else float)
     return list(values)
+
+
+def _scalar(kind, value):
+    import numpy as np
+    if kind == 'int':
+        return int(value)
+    if kind == 'np.float64':
+        return np.float64(value)
+    return float(value)
 
 
 # --------------------------------------------------------------------------
@@ -470,6 +490,8 @@ def _family_body(ctx, case):
     from ..gen import compounds as G
     uni = _state['uni']
     rho, k, wl = case['density'], case['k'], case['wavelength']
+    wla = _scalar(case.get('wavelength_type', 'float'), wl)      # the scalar wavelength as passed to the library
+    ctx.count('wavelength_type.' + case.get('wavelength_type', 'float'))
     rows = case['atoms']
     keys = sorted({(Z, A, q) for Z, A, q, _ in rows})
     for Z, A, q in keys:
@@ -484,12 +506,12 @@ def _family_body(ctx, case):
 
     # 1. base call -----------------------------------------------------------
     base_obj = _build(base_v)
-    base = _flat7(ctx, 'base', _call(ctx, 'base', base_obj, density=rho, wavelength=wl))
+    base = _flat7(ctx, 'base', _call(ctx, 'base', base_obj, density=rho, wavelength=wla))
     _nonneg(ctx, 'base', base)
     ctx.count('form.' + base_v['form'])
 
     # 2. density * k ---------------------------------------------------------
-    got = _flat7(ctx, 'density*k', _call(ctx, 'density*k', _build(base_v), density=rho * k, wavelength=wl))
+    got = _flat7(ctx, 'density*k', _call(ctx, 'density*k', _build(base_v), density=rho * k, wavelength=wla))
     _nonneg(ctx, 'density*k', got)
     want = base.copy()
     want[:6] *= k
@@ -500,7 +522,7 @@ def _family_body(ctx, case):
     for v in case['variants']:
         obj = _build(v)
         what = '%s via %s' % (v['rel'], v['form'])
-        got = _flat7(ctx, what, _call(ctx, what, obj, density=rho, wavelength=wl))
+        got = _flat7(ctx, what, _call(ctx, what, obj, density=rho, wavelength=wla))
         _nonneg(ctx, what, got)
         ctx.count('form.' + v['form'])
         _compare(ctx, what, got, base, v['rel'], diag=_Diag(base_v, v))
@@ -529,7 +551,7 @@ def _family_body(ctx, case):
         es = [float(nsf.neutron_energy(w)) for w in wls]
         arg = {'energy': _container(vec['container'], es)}
     else:
-        arg = {'wavelength': _container(vec['container'], wls)}
+        arg = {'wavelength': _container(vec['container'], wls, vec.get('ints', False))}
     what = 'vector(%s, n=%d, %s)' % (vec['via'], n, vec['container'])
     snapshot = list(arg.values())[0]
     snapshot = snapshot.copy() if hasattr(snapshot, 'copy') else list(snapshot)
